@@ -288,6 +288,44 @@ Definition check_triad (c : list dy * list dy * list dy * list dy) : Z :=
   | _ => 1%Z
   end.
 
+(* ---------------------------------------------------------------- C'. the triad is the normal frame of the ellipsoid at the position
+   Independent of the implementation's latitude/longitude: given the semi-major axis a, e2, the TRS position X and the reported
+   East, North, Up: with b2 = a^2 (1 - e2), D = sqrt(a^2 (u1^2 + u2^2) + b2 u3^2), the point of the ellipsoid whose outward normal is
+   Up is P = (a^2 u1, a^2 u2, b2 u3) / D  (= `geodetic_point a e2 lat lon 0` for Up = `normal lat lon`, lemma foot_of_normal), and X must
+   be P + h Up (height_along_normal) with h = (X - P).Up above the centre region (h >= -a/2 excludes the antipodal foot point).
+   Tolerance: the line through P along Up passes X within 1e-9 (a + |h|), i.e. Up is the normal within 1e-9 rad.
+   East: unit, perpendicular to the z axis and to Up, (z x Up).East = |z x Up| (east_perp_axis_up); North = Up x East
+   (north_completes_rh).  At a pole East is any horizontal unit vector.
+   variables 0 = a, 1 = e2, 2..4 = X, 5..7 = E, 8..10 = N, 11..13 = U; stages: b2 (14), D (15), P (16..18), W = X - P (19..21), h (22) *)
+Definition normal_env (p : prec) (a e2 : dy) (x e n u : list dy) : list I.type :=
+  let e0 := map (I_ofdy p) (a :: e2 :: x ++ e ++ n ++ u) in
+  let aa := EMul (v_ 0) (v_ 0) in
+  let e1 := stage_I p e0 [EMul aa (ESub one_ (v_ 1))] in
+  let e2' := stage_I p e1 [ESqrt (EAdd (EMul aa (EAdd (EMul (v_ 11) (v_ 11)) (EMul (v_ 12) (v_ 12)))) (EMul (v_ 14) (EMul (v_ 13) (v_ 13))))] in
+  let e3 := stage_I p e2' [EDiv (EMul aa (v_ 11)) (v_ 15); EDiv (EMul aa (v_ 12)) (v_ 15); EDiv (EMul (v_ 14) (v_ 13)) (v_ 15)] in
+  let e4 := stage_I p e3 [ESub (v_ 2) (v_ 16); ESub (v_ 3) (v_ 17); ESub (v_ 4) (v_ 18)] in
+  stage_I p e4 [dot_e (vars 19) (vars 11)].
+
+Definition well3 (l : list dy) : bool := (length l =? 3)%nat.
+
+Definition small12 (env : nat -> I.type) (e : rexpr) : bool := check_close p128 rel12 e env (DZero false).
+
+Definition check_normal (c : dy * dy * list dy * list dy * list dy * list dy) : Z :=
+  let '(a, e2, x, e, n, u) := c in
+  let env := env_I (normal_env p128 a e2 x e n u) in
+  let tolr := EMul (EQ rel9) (EAdd (v_ 0) (EAbs (v_ 22))) in
+  let resid k := check_le p128 (EAbs (ESub (v_ (19 + k)) (EMul (v_ 22) (v_ (11 + k))))) tolr env in
+  let uxe := cross_e (vars 11) (vars 5) in
+  verdict (well3 x && well3 e && well3 n && well3 u &&
+           small12 env (ESub (dot_e (vars 11) (vars 11)) one_) &&
+           resid 0%nat && resid 1%nat && resid 2%nat &&
+           check_le p128 (ENeg (EDiv (v_ 0) (EZ 2))) (v_ 22) env &&
+           small12 env (v_ 7) && small12 env (dot_e (vars 5) (vars 11)) && small12 env (ESub (dot_e (vars 5) (vars 5)) one_) &&
+           small12 env (ESub (ESub (EMul (v_ 11) (v_ 6)) (EMul (v_ 12) (v_ 5)))
+                             (ESqrt (EAdd (EMul (v_ 11) (v_ 11)) (EMul (v_ 12) (v_ 12))))) &&
+           check_all_abs p128 rel12 env (map (fun ab => ESub (fst ab) (snd ab)) (combine (vars 8) uxe))
+                         [DZero false; DZero false; DZero false]).
+
 (* ---------------------------------------------------------------- D. along/cross/radial *)
 (* variables 0..2 = r, 3..5 = v, 6..8 = d; stages append ru, vu (9..14), cr = ru x vu (15..17), c (18..20),
    ar = c x ru (21..23), a (24..26) *)
@@ -307,7 +345,6 @@ Definition acr_env_R (r v d : list R) : list R :=
   stage_R e4 (unit_e (vars 21)).
 Definition trs2acr_e : list rexpr := vars 24 ++ vars 18 ++ vars 9.
 
-Definition well3 (l : list dy) : bool := (length l =? 3)%nat.
 
 (* the matrix: 0 = rows are (along, cross, radial); 2 = they are the columns (quirk) *)
 Definition check_acr_mat (c : list dy * list dy * list dy) : Z :=
